@@ -69,12 +69,13 @@ def Ev.apply (sh : Shadow) : Ev → Shadow
 def replay (sh : Shadow) (evs : List Ev) : Shadow := evs.foldl Ev.apply sh
 
 /-- the event makes sense for a listener that applies it to a mapping of exactly `size` bytes: ranges inside the size, the old
-    size of a resize is the size it knows -/
+    size of a resize is the size it knows (the echo of its own resize: the new size is) -/
 def Ev.fits (sh : Shadow) : Ev → Bool
   | .write off d => decide (off + d.length ≤ sh.size)
   | .set off _ len => decide (off + len ≤ sh.size)
   | .copy off len noff => decide (off + len ≤ sh.size) && decide (noff + len ≤ sh.size)
-  | .resize osize _ _ => decide (osize = sh.size)
+  | .resize osize _ false => decide (osize = sh.size)
+  | .resize _ nsize true => decide (nsize = sh.size)
   | .synced => true
   | .closing => true
 
